@@ -163,28 +163,7 @@ def r_anchor(P, chk):
                                   "outside the `== scratch->%s->size` first-use test" % stack if gov is None else
                                   "in the %s branch %s the id" % (gov, "with" if has_id else "without"), fam))
     chk.floor(rid, n_calls, 6, "note call anchor sites")
-    # list exporters re-read the stack size on every iteration (rendering a note body can mark further notes as used)
-    for f in P.all_funcs:
-        if not P.first_party(f):
-            continue
-        for w in f.walk():
-            if w["k"] != "ForStmt" or w["c"][1] is None:
-                continue
-            body_peeks = [x for x in walk(w["c"][3]) if x["k"] == "CallExpr" and x.get("callee") == "stack_peek_index"
-                          and re.search(r"->used_\w+$", key(x["c"][1]))]
-            if not body_peeks:
-                continue
-            stk = key(body_peeks[0]["c"][1])
-            exports = any(x["k"] == "CallExpr" and (x.get("callee") or "").startswith("mmd_export_token_tree") for x in walk(w["c"][3]))
-            if not exports:
-                continue
-            ck = key(w["c"][1])
-            ok = (stk + "->size") in ck
-            chk.obligation(rid, "%s %s: loop over %s re-reads ->size each iteration (condition %s)" % (f.where(w), f.name, stk, ck), ok)
-            if not ok:
-                chk.violation(rid, "anchor:list-bound:%s" % f.name, f.where(w), "%s iterates %s up to `%s`, a value read before the loop: "
-                              "notes first used inside another note's body are pushed while the loop runs and never get a list entry" % (
-                                  f.name, stk, ck))
+    r_listbound(P, chk, rid)
     # heading labels
     n_lab = 0
     for f in P.all_funcs:
@@ -325,3 +304,80 @@ def _field_random(P, m):
                     if _is_random(g, y["c"][1], y):
                         return "%s stores an already renamed number into %s (%s)" % (g.name, fld, g.where(y))
     return None
+
+
+def r_anchor_nolabels(P, chk):
+    """--nolabels removes the heading ids; then no automatic link target may be registered for a heading either."""
+    from .prog import edpe_blocks
+    rid = "R-ANCHOR"
+    f = P.func("process_header_stack", "writer.c")
+    if f is None:
+        raise AnalysisBroken("process_header_stack is gone")
+
+    def bit_set(t):
+        t = strip(t)
+        if t is None:
+            return None
+        if t["k"] == "BinaryOperator" and t["op"] == "&":
+            for a in t["c"]:
+                if enum_name(a) == "EXT_NO_LABELS":
+                    return True
+        if t["k"] == "UnaryOperator" and t["op"] == "!":
+            r = bit_set(t["c"][0])
+            return None if r is None else not r
+        return None
+    blocks = edpe_blocks(f, "?none", 0, extra_decide=bit_set)
+    pos = f.cfg.positions()
+    regs = [c for c in f.calls() if c.get("callee") in ("process_header_to_links", "store_link", "link_new") and c["i"] in pos]
+    bad = [c for c in regs if pos[c["i"]][0] in blocks]
+    chk.obligation(rid, "process_header_stack registers no heading link target when EXT_NO_LABELS is set (the writers then print no "
+                   "heading ids)", bool(regs) and not bad)
+    if not regs:
+        chk.fail_broken("R-ANCHOR: process_header_stack no longer registers heading links (re-read the rule)")
+    for c in bad[:1]:
+        chk.violation(rid, "anchor:nolabels:process_header_stack", f.where(c), "with --nolabels (EXT_NO_LABELS alone) process_header_stack "
+                      "still registers automatic link targets for headings, while every writer omits the heading ids under that bit: "
+                      "`[Heading][]` becomes a link to an id that does not exist")
+
+
+
+def r_listbound(P, chk, rid="R-ANCHOR"):
+    """List exporters re-read the stack size on every iteration (rendering a note body can mark further notes as used)."""
+    from .prog import single_assignment_locals
+    if rid not in chk.rules:
+        chk.rule(rid, "the note list exporters iterate their used-note stack up to its *current* size: a note first used inside "
+                      "another note's body is pushed while the list is printed and must still get its entry (and its text)")
+    n = 0
+    for f in P.all_funcs:
+        if not P.first_party(f):
+            continue
+        ptr_alias = {}
+        for x in f.walk():
+            if x["k"] == "VarDecl" and (x.get("t") or "").rstrip().endswith("*") and x["n"] in single_assignment_locals(f):
+                ptr_alias[x["n"]] = key(single_assignment_locals(f)[x["n"]])
+
+        def pk(e):
+            k = key(e)
+            for nm, init in ptr_alias.items():
+                k = re.sub(r"(?<![A-Za-z0-9_>])%s(?![A-Za-z0-9_])" % re.escape(nm), init, k)
+            return k
+        for w in f.walk():
+            if w["k"] != "ForStmt" or w["c"][1] is None:
+                continue
+            body_peeks = [x for x in walk(w["c"][3]) if x["k"] == "CallExpr" and x.get("callee") == "stack_peek_index"
+                          and re.search(r"->used_\w+$", pk(x["c"][1]))]
+            if not body_peeks:
+                continue
+            stk = pk(body_peeks[0]["c"][1])
+            exports = any(x["k"] == "CallExpr" and (x.get("callee") or "").startswith("mmd_export_token_tree") for x in walk(w["c"][3]))
+            if not exports:
+                continue
+            n += 1
+            ck = pk(w["c"][1])
+            ok = (stk + "->size") in ck
+            chk.obligation(rid, "%s %s: loop over %s re-reads ->size each iteration (condition %s)" % (f.where(w), f.name, stk, ck), ok)
+            if not ok:
+                chk.violation(rid, "anchor:list-bound:%s" % f.name, f.where(w), "%s iterates %s up to `%s`, a value read before the loop: "
+                              "notes first used inside another note's body are pushed while the loop runs and never get a list entry" % (
+                                  f.name, stk, ck))
+    chk.floor(rid, n, 3, "note list loops")
